@@ -16,8 +16,11 @@ package proto
 
 import (
 	"bytes"
+	"fmt"
 	"strconv"
 )
+
+const maxArrayPrealloc = 1024
 
 // Array represents a array message.
 type Array struct {
@@ -49,13 +52,16 @@ func newArrayWithParser(parser *Parser) (*Array, error) {
 	}
 
 	// Gets all array messages
-	msgs := make([]*Message, arraySize)
+	msgs := make([]*Message, 0, min(arraySize, maxArrayPrealloc))
 	for n := 0; n < arraySize; n++ {
 		msg, err := parser.Next()
 		if err != nil {
 			return nil, err
 		}
-		msgs[n] = msg
+		if msg == nil {
+			return nil, fmt.Errorf(errorShortArray, n, arraySize)
+		}
+		msgs = append(msgs, msg)
 	}
 	array := &Array{
 		index: 0,
